@@ -609,6 +609,14 @@ func (n *hostNet) listen0(tag, network string, laddr netip.AddrPort) (*Sock, err
 		w.Stats.ListenErrors++
 		return nil, &net.OpError{Op: "listen", Net: network, Err: &net.AddrError{Err: "address family mismatch", Addr: ip.String()}}
 	}
+	if ip.IsMulticast() {
+		// a multicast listener (mDNS): bound like a wildcard socket on that port
+		if ip.Is6() {
+			ip = netip.IPv6Unspecified()
+		} else {
+			ip = netip.IPv4Unspecified()
+		}
+	}
 	if !ip.IsUnspecified() && !h.hasIP(ip.WithZone("")) {
 		w.Stats.ListenErrors++
 		return nil, &net.OpError{Op: "listen", Net: network, Err: os.NewSyscallError("bind", syscall.EADDRNOTAVAIL)}
